@@ -917,4 +917,112 @@ theorem layer_spec (divs : Nat) (ks : List String) (l : Nat × Nat × List Item)
   rw [closeEv_layer _ { tag := "layer", attrs := A } g rest (by simp [stL, hstack.1]) rfl hstack.2]
   simp [stL, hstack.1]
 
+def q (divs : Nat) (t : Nat) : Rat := (t : Rat) / (divs : Rat)
+
+theorem layers_spec (divs : Nat) (ks : List String) (ls : List (Nat × Nat × List Item)) (start : Nat) (ends : List Nat)
+    (hok : mapMOpt (fun l => itemsOk divs start l.2.2) ls = some ends) (es : List (List Ev))
+    (hev : mapMOpt (layerEvs ks) ls = some es)
+    (st : Mei.St) (hc : StaffCtx st) (hpos : st.pos = (start : Rat) / (divs : Rat)) :
+    ∃ de new c v, runEvs st es.flatten = some { st with notes := new ++ st.notes, cursor := c, voice := v,
+                                                         layerEnds := (ends.map (q divs)).reverse ++ st.layerEnds,
+                                                         layerIdx := st.layerIdx + ends.length, durEls := de } ∧
+      (∀ r ∈ new, r.part = st.staffIdx) ∧
+      ∀ l ∈ ls, ∀ m ∈ l.2.2.flatMap itemNotes, m.n.kind ≠ 2 → ∃ r ∈ new, rfact r = factOf divs m := by
+  induction ls generalizing ends es st with
+  | nil =>
+    simp [mapMOpt] at hok hev
+    subst hok; subst hev
+    exact ⟨st.durEls, [], st.cursor, st.voice, by simp [runEvs], by simp, by simp⟩
+  | cons l rest ih =>
+    obtain ⟨e, ends', rfl, he, hends⟩ := mapMOpt_cons _ l rest ends hok
+    obtain ⟨ev, es', rfl, hev1, hes⟩ := mapMOpt_cons _ l rest es hev
+    obtain ⟨de1, new1, r1, p1, f1⟩ := layer_spec divs ks l start e he ev hev1 st hc hpos
+    let st1 : Mei.St := { st with notes := new1 ++ st.notes, cursor := (e : Rat) / (divs : Rat), voice := (l.2).1,
+                                   layerEnds := ((e : Rat) / (divs : Rat)) :: st.layerEnds, layerIdx := st.layerIdx + 1, durEls := de1 }
+    have hc1 : StaffCtx st1 := ⟨hc.par, hc.noLayer, hc.noTup, hc.ch⟩
+    obtain ⟨de2, new2, c, v, r2, p2, f2⟩ := ih ends' hends es' hes st1 hc1 hpos
+    refine ⟨de2, new2 ++ new1, c, v, ?_, ?_, ?_⟩
+    · simp only [List.flatten_cons]
+      rw [runEvs_append, r1]
+      simp only [Option.bind_some]
+      rw [r2]
+      simp [st1, q, Nat.add_assoc, Nat.add_comm 1]
+    · intro r hr
+      rcases List.mem_append.mp hr with h | h
+      · exact p2 r h
+      · exact p1 r h
+    · intro x hx m hm hk
+      rcases List.mem_cons.mp hx with rfl | hx
+      · obtain ⟨r, hr, hf⟩ := f1 m hm hk
+        exact ⟨r, by simp [hr], hf⟩
+      · obtain ⟨r, hr, hf⟩ := f2 x hx m hm hk
+        exact ⟨r, by simp [hr], hf⟩
+
+theorem openEv_staff (st : Mei.St) (as : List (String × String))
+    (hpre : pre st "staff" as = some st) (hpar : parentTag st = "measure") :
+    openEv st "staff" as =
+      some { st with staffN := (natAttr as "n").getD (st.staffIdx + 1), layerIdx := 0, layerEnds := [],
+                     stack := { tag := "staff", attrs := as } :: st.stack } := by
+  simp only [pre] at hpre
+  simp only [parentTag] at hpar
+  simp [openEv, hpre, hpar]
+
+theorem closeEv_staff (st : Mei.St) (f g : Frame) (rest : List Frame) (hs : st.stack = f :: g :: rest)
+    (hf : f.tag = "staff") (hg : g.tag = "measure") :
+    closeEv st = some { st with stack := g :: rest,
+                                measures := (st.staffIdx, st.measNo, st.measName, st.pos, ratMaxFrom st.pos st.layerEnds) :: st.measures,
+                                staffEnds := ratMaxFrom st.pos st.layerEnds :: st.staffEnds, staffIdx := st.staffIdx + 1 } := by
+  simp [closeEv, hs, hf, hg]
+
+/-- inside a `measure`, between two staves -/
+structure MeasCtx (st : Mei.St) : Prop where
+  par : parentTag st = "measure"
+  noLayer : inLayer st.stack = false
+  noTup : tupletsOf st.stack = []
+  ch : st.chord = none
+
+theorem staff_spec (divs : Nat) (ks : List String) (layers : List (Nat × Nat × List Item)) (s : Nat) (start : Nat) (ends : List Nat)
+    (hok : mapMOpt (fun l => itemsOk divs start l.2.2) (layers.filter fun l => l.1 = s) = some ends)
+    (evs : List Ev) (hev : staffEvs ks layers s = some evs)
+    (st : Mei.St) (hc : MeasCtx st) (hpos : st.pos = (start : Rat) / (divs : Rat)) :
+    ∃ de new c v sn li le ms, runEvs st evs = some { st with notes := new ++ st.notes, cursor := c, voice := v, staffN := sn,
+                                                                  layerIdx := li, layerEnds := le, measures := ms,
+                                                                  staffEnds := ratMaxFrom st.pos ((ends.map (q divs)).reverse) :: st.staffEnds,
+                                                                  staffIdx := st.staffIdx + 1, durEls := de } ∧
+      (∀ r ∈ new, r.part = st.staffIdx) ∧
+      ∀ l ∈ layers, l.1 = s → ∀ m ∈ l.2.2.flatMap itemNotes, m.n.kind ≠ 2 → ∃ r ∈ new, rfact r = factOf divs m := by
+  simp only [staffEvs, Option.map_eq_some_iff] at hev
+  obtain ⟨es, hes, rfl⟩ := hev
+  let A : List (String × String) := [("n", natStr s)]
+  have hp : pre st "staff" A = some st :=
+    pre_noDur st "staff" A (by simp [A, attr, lookup]) (by simp [A, natAttr, attr, lookup]) (by decide)
+  have hopen := openEv_staff st A hp hc.par
+  let stS : Mei.St := { st with staffN := (natAttr A "n").getD (st.staffIdx + 1), layerIdx := 0, layerEnds := [],
+                                 stack := { tag := "staff", attrs := A } :: st.stack }
+  have hcS : StaffCtx stS := by
+    refine ⟨by simp [parentTag, stS], ?_, ?_, hc.ch⟩
+    · have := hc.noLayer
+      simp only [inLayer, stS, List.any_cons] at this ⊢
+      simp [this]
+    · show tupletsOf ({ tag := "staff", attrs := A } :: st.stack) = _
+      rw [tupletsOf_push_other _ _ (by simp), hc.noTup]
+  obtain ⟨de, new, c, v, r1, p1, f1⟩ := layers_spec divs ks _ start ends hok es hes stS hcS hpos
+  obtain ⟨g, rest, hstack, hg⟩ : ∃ g rest, st.stack = g :: rest ∧ g.tag = "measure" := by
+    have := hc.par
+    simp only [parentTag] at this
+    cases hs : st.stack with
+    | nil => simp [hs] at this
+    | cons g rest => simp [hs] at this; exact ⟨g, rest, rfl, this⟩
+  refine ⟨de, new, c, v, (natAttr A "n").getD (st.staffIdx + 1), 0 + ends.length, (ends.map (q divs)).reverse ++ [],
+    (st.staffIdx, st.measNo, st.measName, st.pos, ratMaxFrom st.pos ((ends.map (q divs)).reverse ++ [])) :: st.measures, ?_, p1, ?_⟩
+  · simp only [el, List.cons_append, runEvs, stepEv]
+    rw [show openEv st "staff" [("n", natStr s)] = _ from hopen]
+    simp only []
+    rw [runEvs_append, r1]
+    simp only [Option.bind_some, runEvs, stepEv]
+    rw [closeEv_staff _ { tag := "staff", attrs := A } g rest (by simp [stS, hstack]) rfl hg]
+    simp [stS, hstack]
+  · intro l hl hs m hm hk
+    exact f1 l (List.mem_filter.mpr ⟨hl, by simpa using hs⟩) m hm hk
+
 end C19M
